@@ -34,19 +34,19 @@ def run(tier, seed):
                             consts=ec.consts(MUT | CB | ({"nodefer"} if mode == 1 else {"loop"}), 18 if q else 30, wa=wa, wb=wb,
                                              data=("", "a", "b", "aCL", "L", "bLa"), nsel=(0, 1, 2, 5, 9), sizes=(0, 2000),
                                              maxlen=8, cbmode=mode),
-                            simulate=15 if q else 120, depth=90))
+                            simulate=15 if q else 60, depth=90))
     if not q:
         gen += [
-            dict(name="C13_exh_imm4", consts=ec.consts({"add", "drain", "rmbuf", "readln"} | CB, 4, wa=37, wb=1021, data=("aCL",), nsel=(1, 9), cbmode=1)),
-            dict(name="C13_exh_def4", consts=ec.consts({"add", "drain", "rmbuf", "loop"} | CB, 4, wa=37, wb=1021, data=("aCL",), nsel=(1, 9), cbmode=2)),
+            dict(name="C13_warm_moves_def", consts=ec.consts({"add", "drain", "rmbuf", "addbuf", "cbadd", "loop"}, 5, wa=1021, wb=4099,
+                                                            data=("a", "b"), nsel=(1, 2, 9), cbmode=2, warm=3)),
         ]
     # open finding: NODEFER callbacks on a buffer with deferred callbacks (excluded above: "nodefer" not in Acts for mode 2)
     gen.append(dict(name="C13_known_nodefer",
                     consts=ec.consts({"add", "cbadd", "cbflag", "loop", "nodefer"}, 4, data=("a",), nsel=(1,), cbmode=2),
                     key_fn=nodefer_key))
     plan = {
-        "mc": [("C13_mc_imm", ec.consts((SMALL if q else MUT) | CB | {"nodefer"}, 3 if q else 4, wa=2, wb=3, data=("a", "aCL"), nsel=(1, 9), sizes=(0,), cbmode=1)),
-               ("C13_mc_def", ec.consts((SMALL if q else MUT) | CB | {"loop"}, 3 if q else 4, wa=2, wb=3, data=("a", "aCL"), nsel=(1, 9), sizes=(0,), cbmode=2))],
+        "mc": [("C13_mc_imm", ec.consts((SMALL if q else MUT) | CB | {"nodefer"}, 3, wa=2, wb=3, data=("a", "aCL"), nsel=(1, 9), sizes=(0,), cbmode=1)),
+               ("C13_mc_def", ec.consts((SMALL if q else MUT) | CB | {"loop"}, 3, wa=2, wb=3, data=("a", "aCL"), nsel=(1, 9), sizes=(0,), cbmode=2))],
         "gen": gen,
         "need_ops": ["cbadd", "cbdel", "cbflag", "loop", "add", "drain", "rmbuf", "readln"],
         "rule": "Up to 2 callbacks per buffer (2 buffers), added/removed/enabled/disabled (and NODEFER-flagged) at any point; "
